@@ -212,6 +212,7 @@ CHECKS["C12"] = {
         {"engine": "E", "proxy": ["plain"], "tests": [
             {"run": "TestVfC12Edns", "quick": 2400, "thorough": 1500000, "shards_quick": 8, "shards_thorough": 16, "timeout_thorough": 3400},
             {"run": "TestVfC12Prefetch", "quick": 16, "thorough": 640, "shards_quick": 8, "shards_thorough": 16, "timeout_thorough": 3000},
+            {"run": "TestVfC12Timeout", "quick": 4, "thorough": 160, "shards_quick": 4, "shards_thorough": 8, "timeout_thorough": 3400, "shrinktime": "30s"},
         ]},
     ],
     "assumptions": ["at most one OPT per message (RFC 6891)"],
@@ -228,6 +229,11 @@ CHECKS["C05"] = {
             {"run": "TestVfC05Pipeline", "quick": 2400, "thorough": 160000, "shards_quick": 12, "shards_thorough": 16, "args": ["-rapid.steps", "50"], "timeout_thorough": 3400},
             {"run": "TestVfC05Rollover", "quick": 8, "thorough": 960, "timeout_thorough": 3000, "shards_quick": 8, "shards_thorough": 16},
             {"run": "TestVfC05SlowFrame", "quick": 320, "thorough": 32000, "timeout_thorough": 3000, "shards_quick": 8, "shards_thorough": 16},
+        ]},
+        # the udp upstream as its callers see it (multiplexed UDP leg + TCP leg): a returned message is the reply to the
+        # caller's own query under the caller's ID, whichever leg produced it
+        {"engine": "P", "pkg": "internal/upstream", "tests": [
+            {"run": "TestVfC16Fallback", "quick": 600, "thorough": 60000, "timeout_thorough": 3000, "shards_quick": 8, "shards_thorough": 16},
         ]},
     ],
     "assumptions": ["the server side is the harness's in-memory connection; dials always succeed (faults are C14's domain)"],
@@ -260,6 +266,7 @@ CHECKS["C16"] = {
     "parts": [
         {"engine": "P", "pkg": "internal/upstream", "tests": [
             {"run": "TestVfC16Fallback", "quick": 2000, "thorough": 187500, "timeout_thorough": 3000, "shards_quick": 8, "shards_thorough": 16},
+            {"run": "TestVfC16TcpSideComesBack", "quick": 160, "thorough": 16000, "timeout_thorough": 3000, "shards_quick": 8, "shards_thorough": 16},
         ]},
     ],
     "assumptions": ["the upstream is created with NewUpstream(\"udp://127.0.0.1:port\") as the router does"],
@@ -426,6 +433,7 @@ CHECKS["C18"] = {
             {"run": "TestVfC18UpstreamClose", "quick": 240, "thorough": 66670, "shards_quick": 8, "shards_thorough": 16, "timeout_thorough": 3400, "shrinktime": "10s"},
         ]},
         {"engine": "P", "pkg": "internal/upstream/transport", "tests": [
+            {"run": "TestVfC05Rollover", "quick": 8, "thorough": 160, "timeout_thorough": 3000, "shards_quick": 8, "shards_thorough": 16},
             {"run": "TestVfC18ReuseIdleRace", "quick": 320, "thorough": 32000, "shards_quick": 8, "shards_thorough": 16, "timeout_thorough": 3400, "shrinktime": "10s"},
         ]},
         {"engine": "P", "pkg": "app/router", "tests": [
